@@ -47,6 +47,9 @@ MUTANTS = [
      "        return component"),
     ('c08-platform-stage-variable-keeps-cache', 'C08', 'c08', 64, 'python/experiment/model/frontends/flowir.py',
      "        stage_vars[stage_index][variable] = value\n\n        self._cache.clear()", "        stage_vars[stage_index][variable] = value"),
+    ('c13-refused-submission-never-stops-unfixed', 'C13', 'c13', 480, 'python/experiment/runtime/engine.py',
+     "                    if did_i_execute and my_process is not None and my_process.returncode == 0 :",
+     "                    if did_i_execute and my_process.returncode == 0 :"),
     ('c08-cache-returns-live-object', 'C08', 'c08', 64, 'python/experiment/model/frontends/flowir.py',
      "            return deep_copy(self._cache[reference])", "            return self._cache[reference]"),
     ('c08-unescaped-component-name-unfixed', 'C08', 'c08', 64, 'python/experiment/model/frontends/flowir.py',
